@@ -1,8 +1,9 @@
 (* C13 — Scientific instance files are read faithfully.
    Only the property theorems, each closed by `exact`.  Definitions (model of the readers, abstract instances,
    printers, expected problems) are in Model/Scientific.v, lemmas in Proofs/ScientificP.v. *)
-From VRP Require Import Base.Tac Model.Scientific Proofs.ScientificP.
-From Coq Require Import String Permutation.
+From VRP Require Import Base.Tac Model.Core Spec.Feasible.
+From VRP Require Import Model.Scientific Model.SciText Model.SciBind Proofs.ScientificP Proofs.SciTextP Proofs.SciBindP.
+From Coq Require Import String Ascii Permutation.
 
 (* ---- Solomon: parsing the printed text of any well-formed instance (any 4+4 header lines) yields exactly its
    customers (id, demand as static delivery, window, service), depot, fleet size, capacity, coordinate index ---- *)
@@ -78,3 +79,133 @@ Theorem C13_nonvacuous_lilim : exists I, lil_wf I /\ List.length (li_reqs I) = 1
 Proof. exists lil_witness. split; [exact lil_witness_wf|reflexivity]. Qed.
 Theorem C13_nonvacuous_tsplib : exists I, tsp_wf I /\ List.length (ti_nodes I) = 3%nat.
 Proof. exists tsp_witness. split; [exact tsp_witness_wf|reflexivity]. Qed.
+
+(* ====================================================================================================
+   CHARACTER level (Model/SciText.v): the text layer the readers really use — read_line, split_whitespace, str::parse of
+   i32 / usize / f64, split(':') + trim — is inside the model; the printers produce characters with oracle layouts
+   (arbitrary leading / separating / trailing white space from {space, TAB, CR, VT, FF}, '+' signs and leading zeros on
+   every number, arbitrary header lines, optional final newline).
+   ==================================================================================================== *)
+Theorem C13_parse_print_solomon_text : forall lay I,
+  sol_wf I -> List.length (sl_h1 lay) = 4%nat -> List.length (sl_h2 lay) = 4%nat ->
+  read_solomon_text (print_solomon_text lay I) = Ok (expected_solomon I).
+Proof. exact parse_print_solomon_text. Qed.
+Theorem C13_parse_print_lilim_text : forall lay I, lil_wf I ->
+  read_lilim_text (print_lilim_text lay I) = Ok (expected_lilim I).
+Proof. exact parse_print_lilim_text. Qed.
+Theorem C13_parse_print_lilim_any_layout_text : forall lay I rows,
+  1 <= li_number I < two64 -> nat32 (li_capacity I) -> 0 <= li_speed I < two64 -> node_wf (li_depot I) ->
+  Forall (fun r => 0 < rq_q r) (li_reqs I) ->
+  lilim_layout I rows ->
+  read_lilim_text (print_lilim_rows_text lay I rows) = Ok (expected_lilim I).
+Proof. exact parse_print_lilim_rows_text. Qed.
+(* TSPLIB: any white space around keys, colons and values, k zero decimals on coordinates / capacity, every hash order *)
+Theorem C13_parse_print_tsplib_text : forall lay k I pn,
+  tsp_wf I -> List.length (tl_h lay) = 2%nat -> Permutation pn (ti_nodes I) ->
+  read_tsplib_text (map t_id pn) (print_tsplib_text lay k I) = Ok (expected_tsplib pn I).
+Proof. exact parse_print_tsplib_text. Qed.
+
+(* the text layer itself: the words of a printed line are its words, whatever the white space; every signed / zero-padded
+   spelling of an integer is read as that integer by str::parse::<i32> (and ::<usize> when it is not negative), and by the
+   f64 route of the TSPLIB reader *)
+Theorem C13_split_whitespace_print_line : forall ll ws tail,
+  Forall word_ok ws -> all_ws tail -> words (print_line ll ws ++ tail) = ws.
+Proof. exact words_print_line. Qed.
+Theorem C13_parse_printed_integer : forall sg st z, sg = true \/ 0 <= z -> tok_int sg (print_int st z) = TInt z.
+Proof. exact tok_int_print. Qed.
+Theorem C13_float_route_reads_integers : forall st z, i32 z -> parse_int (lex_tsp_word (print_int st z)) = Ok z.
+Proof. exact float_reads_int. Qed.
+(* what parse_int computes on a decimal with zero fraction digits is exact (the double of an integer below 2^33 is exact) *)
+Theorem C13_f64_round_exact_integers : forall z k, Z.abs z < 2 ^ 33 -> f64_round (z * 10 ^ Z.of_nat k) k = z.
+Proof. exact f64_round_exact. Qed.
+
+(* TSPLIB decimals: what the code computes (double, then round) IS the nearest integer, ties away from zero, of the decimal
+   (C13_decimal_rounding) whenever there are at most 6 fraction digits; with more digits the double may cross a tie
+   ("2.4999999999999999999" is read as 3) - the model follows the code (f64_round), validated on such texts *)
+Theorem C13_short_decimals_round_exactly : forall m k, (k <= 6)%nat -> Z.abs m < 2 ^ 33 * 10 ^ Z.of_nat k ->
+  f64_round m k = round_half_away m k.
+Proof. exact f64_round_short. Qed.
+Theorem C13_long_decimal_crosses_tie_witness :
+  parse_int (lex_tsp_word (str "2.4999999999999999999")) = Ok 3 /\ round_half_away 24999999999999999999 19 = 2.
+Proof. split; vm_compute; reflexivity. Qed.
+
+(* ---- numbers outside the machine types (the guards i32 / nat32 of the well-formedness predicates are needed):
+   a Solomon / Li&Lim customer line with a number outside i32 among its first 7 panics (unwrap of the parse error);
+   TSPLIB numbers saturate silently ---- *)
+Theorem C13_out_of_range_customer_line_panics : forall ll pre z post,
+  Forall i32 pre -> (List.length pre < 7)%nat -> ~ i32 z ->
+  read_customer7 (lex_words (tok_int true) (num_line ll (pre ++ z :: post))) = Panic.
+Proof. exact customer_line_out_of_range. Qed.
+(* the guard `i32_min < t_id n` of tsp_wf is needed: the reader computes `id - 1` on i32, which overflows for i32::MIN
+   (panic in a build with overflow checks, as the harness is built; a release build wraps to job id "2147483647") *)
+Theorem C13_tsplib_min_id_overflows :
+  read_tsplib_text [1; -2147483648] (str "a
+b
+TYPE : CVRP
+DIMENSION : 2
+EDGE_WEIGHT_TYPE : EUC_2D
+CAPACITY : 10
+NODE_COORD_SECTION
+1 0 0
+-2147483648 1 1
+DEMAND_SECTION
+1 0
+-2147483648 1
+DEPOT_SECTION
+1
+-1
+EOF
+") = Panic.
+Proof. vm_compute. reflexivity. Qed.
+Theorem C13_tsplib_numbers_saturate : forall z, parse_int (lex_tsp_word (canon_str z)) = Ok (clamp_i32 z).
+Proof. exact tsplib_saturates. Qed.
+
+(* ---- the written solution text, character by character, and its round trip; the reader also reports the jobs no route
+   mentions (empty for a complete solution); routes are taken as written, duplicates included ---- *)
+Theorem C13_init_text_roundtrip_text : forall known nveh rs m s,
+  Forall (Forall (fun z => In z known)) rs -> (List.length rs <= nveh)%nat -> 0 <= m ->
+  read_init_text known nveh (write_solution_text rs m s) = Ok rs.
+Proof. exact init_text_roundtrip_text. Qed.
+Theorem C13_init_text_unassigned : forall known nveh rs m s,
+  Forall (Forall (fun z => In z known)) rs -> (List.length rs <= nveh)%nat -> 0 <= m ->
+  read_init_full known nveh (write_solution_text rs m s) = Ok (rs, filter (fun z => negb (mentioned rs z)) known).
+Proof. exact init_full_roundtrip_text. Qed.
+Theorem C13_complete_solution_nothing_unassigned : forall known rs,
+  (forall z, In z known -> exists r, In r rs /\ In z r) -> filter (fun z => negb (mentioned rs z)) known = [].
+Proof. exact complete_no_unassigned. Qed.
+(* "Cost {:.2}": the hundredths are the nearest to the exact value of the double m / 2^s; an integer cost prints as c.00 *)
+Theorem C13_cost_hundredths_nearest : forall n d, 0 < d -> 2 * Z.abs (n - rne_div n d * d) <= d.
+Proof. exact rne_div_nearest. Qed.
+Theorem C13_cost_format_integer : forall c s, 0 <= c -> cost_str (c * 2 ^ Z.of_nat s) s = dec_str c ++ str ".00".
+Proof. exact cost_str_integer. Qed.
+
+(* ====================================================================================================
+   "so that capacity and time windows bind exactly as the file says" (Model/SciBind.v): the problem read from the
+   CHARACTERS of a printed instance, walked by the step-by-step feasibility simulation of Spec/Feasible.v (the notion C06
+   and C01 are stated against) with the rounded Euclidean matrix as travel times, accepts exactly the routes the textbook
+   definition accepts: Solomon VRPTW (sum of demands <= Q, arrival <= due date, service from max(arrival, ready time),
+   back at the depot by its due date), Li & Lim PDPTW (running load with signed demands <= Q, same timing; a route is a
+   sequence of pickup / delivery events of requests of the instance), CVRP (sum of demands <= Q).
+   ==================================================================================================== *)
+Theorem C13_solomon_binds : forall lay I r,
+  sol_wf I -> List.length (sl_h1 lay) = 4%nat -> List.length (sl_h2 lay) = 4%nat ->
+  (forall c, In c r -> In c (si_custs I)) ->
+  exists P, read_solomon_text (print_solomon_text lay I) = Ok P /\
+            problem_feasible P (map (sol_single I) r) = sol_route_ok I r.
+Proof. exact solomon_text_binds. Qed.
+Theorem C13_lilim_binds : forall lay I r,
+  lil_wf I -> (forall e, In e r -> In (ev_req e) (li_reqs I)) ->
+  exists P, read_lilim_text (print_lilim_text lay I) = Ok P /\
+            problem_feasible P (map (lil_ev_single I) r) = lil_route_ok I r.
+Proof. exact lilim_text_binds. Qed.
+(* CVRP: non-negative demands, fewer than 2^20 stops (the open windows are the constant INF = 2^60 of Model/Core.v) *)
+Theorem C13_tsplib_binds : forall lay k I pn r,
+  tsp_wf I -> List.length (tl_h lay) = 2%nat -> Permutation pn (ti_nodes I) ->
+  Forall (fun n => 0 <= t_dem n) r -> Z.of_nat (List.length r) < 2 ^ 20 ->
+  exists P, read_tsplib_text (map t_id pn) (print_tsplib_text lay k I) = Ok P /\
+            problem_feasible P (map (tsp_single pn I) r) = tsp_route_ok I r.
+Proof. exact tsplib_text_binds. Qed.
+(* non-vacuity of "bind": read from characters, one unit of capacity / one unit of time decides (customer at distance 5
+   with demand 5: Q = 5, due = 5 feasible; Q = 4 or due = 4 infeasible) *)
+Theorem C13_nonvacuous_bind : bind_verdict 5 5 = true /\ bind_verdict 4 5 = false /\ bind_verdict 5 4 = false.
+Proof. exact bind_witness. Qed.
